@@ -833,7 +833,20 @@ where
         assert!(block_size::is_valid(block_size));
         assert!(block_hash_1.len() <= S1);
         assert!(block_hash_2.len() <= S2);
-        Self::new_from_internals_internal(block_size, block_hash_1, block_hash_2)
+        let hash = Self::new_from_internals_internal(block_size, block_hash_1, block_hash_2);
+        assert!(algorithms::verify_block_hash_input::<S1, NORM>(
+            &hash.blockhash1,
+            hash.len_blockhash1,
+            true,
+            false
+        ));
+        assert!(algorithms::verify_block_hash_input::<S2, NORM>(
+            &hash.blockhash2,
+            hash.len_blockhash2,
+            true,
+            false
+        ));
+        hash
     }
 
     /// The *base-2 logarithm* form of the block size.
